@@ -197,6 +197,98 @@ Theorem C20_pauli_decomp_reconstructs_one_qubit :
 Proof. exact pauli_decomp_reconstructs. Qed.
 Print Assumptions C20_pauli_decomp_reconstructs_one_qubit.
 
+(* projector() / measure(): eigenvalues are grouped by the decision rule
+   |el_j - outcome| < tol.  The projector sums exactly those eigenvectors, once
+   each in ascending order; measure()'s boolean-mask normaliser sums the
+   probabilities of exactly the same eigenvectors when it is given the same
+   tolerance; two tolerances select the same group iff they classify every level
+   alike; and a projector built with tol1 under a normaliser summed with
+   tol2 >= tol1 is off by the probability mass of the levels in between. *)
+Theorem C20_measure_group_spec : forall el lam tol j,
+  In j (group el lam tol) <-> (j < length el /\ (Z.abs (nth j el 0 - lam) < tol)%Z).
+Proof. exact group_spec. Qed.
+Print Assumptions C20_measure_group_spec.
+
+Theorem C20_measure_group_ascending : forall el lam tol, Sorted.StronglySorted lt (group el lam tol).
+Proof. exact group_sorted. Qed.
+Print Assumptions C20_measure_group_ascending.
+
+Theorem C20_measure_normaliser_sums_the_projected_group : forall el pj lam tol, length pj = length el ->
+  group_sum el pj lam tol = sum_at pj (group el lam tol).
+Proof. exact group_sum_is_sum_over_group. Qed.
+Print Assumptions C20_measure_normaliser_sums_the_projected_group.
+
+Theorem C20_measure_tolerances_agree_iff : forall el lam tol1 tol2,
+  group el lam tol1 = group el lam tol2 <->
+  (forall e, In e el -> ((Z.abs (e - lam) < tol1)%Z <-> (Z.abs (e - lam) < tol2)%Z)).
+Proof. exact group_tol_same_iff. Qed.
+Print Assumptions C20_measure_tolerances_agree_iff.
+
+Theorem C20_measure_mixed_tolerances_gap : forall el pj lam tol1 tol2, (tol1 <= tol2)%Z ->
+  group_sum el pj lam tol2 = (group_sum el pj lam tol1 + annulus_sum el pj lam tol1 tol2)%Z.
+Proof. exact group_sum_annulus. Qed.
+Print Assumptions C20_measure_mixed_tolerances_gap.
+
+Theorem C20_measure_model_one_tolerance : forall el pj lam tol, length pj = length el ->
+  let '(out, proj, nrm) := measure_model el pj lam tol in
+  out = lam /\ proj = group el lam tol /\ nrm = sum_at pj proj.
+Proof. exact measure_model_consistent. Qed.
+Print Assumptions C20_measure_model_one_tolerance.
+
+Theorem C20_measure_sampled_level_is_projected : forall el pj j tol, j < length el -> (0 < tol)%Z ->
+  let '(out, proj, _) := measure_sampled el pj j tol in out = nth j el 0%Z /\ In j proj.
+Proof. exact measure_sampled_contains_level. Qed.
+Print Assumptions C20_measure_sampled_level_is_projected.
+
+(* over ANY commutative ring, for orthonormal eigenvectors (V^dagger V = 1) and
+   arbitrary weights w, v (0/1 indicators of the selected groups in the code):
+   tr(P_w rho P_v) = sum_j w_j v_j <v_j|rho|v_j>, so the collapsed operator is
+   normalised by sum_{j in group} pj exactly when the normaliser sums the SAME
+   group the projector was built from; || P_w psi ||^2 likewise; P_w P_v = P_{wv} *)
+Theorem C20_measure_collapse_trace :
+  forall (K : Type) (k0 k1 : K) (kadd kmul ksub : K -> K -> K) (kopp : K -> K),
+  ring_theory k0 k1 kadd kmul ksub kopp eq ->
+  forall (d : nat) (ev evc : nat -> nat -> K),
+  (forall i j, i < d -> j < d -> sum K k0 kadd d (fun a => kmul (evc a j) (ev a i)) = delta K k0 k1 i j) ->
+  forall (rho : nat -> nat -> K) (w v : nat -> K),
+  tr K k0 kadd d (collapsed K k0 kadd kmul d ev evc rho w v)
+  = sum K k0 kadd d (fun j => kmul (kmul (w j) (v j)) (prob_op K k0 kadd kmul d ev evc rho j)).
+Proof. exact collapse_trace. Qed.
+Print Assumptions C20_measure_collapse_trace.
+
+Theorem C20_measure_collapse_normalised_by_same_group :
+  forall (K : Type) (k0 k1 : K) (kadd kmul ksub : K -> K -> K) (kopp : K -> K),
+  ring_theory k0 k1 kadd kmul ksub kopp eq ->
+  forall (d : nat) (ev evc : nat -> nat -> K),
+  (forall i j, i < d -> j < d -> sum K k0 kadd d (fun a => kmul (evc a j) (ev a i)) = delta K k0 k1 i j) ->
+  forall (rho : nat -> nat -> K) (s : nat -> K), (forall j, j < d -> kmul (s j) (s j) = s j) ->
+  tr K k0 kadd d (collapsed K k0 kadd kmul d ev evc rho s s)
+  = sum K k0 kadd d (fun j => kmul (s j) (prob_op K k0 kadd kmul d ev evc rho j)).
+Proof. exact collapse_trace_same_selection. Qed.
+Print Assumptions C20_measure_collapse_normalised_by_same_group.
+
+Theorem C20_measure_collapse_ket_norm :
+  forall (K : Type) (k0 k1 : K) (kadd kmul ksub : K -> K -> K) (kopp : K -> K),
+  ring_theory k0 k1 kadd kmul ksub kopp eq ->
+  forall (d : nat) (ev evc : nat -> nat -> K),
+  (forall i j, i < d -> j < d -> sum K k0 kadd d (fun a => kmul (evc a j) (ev a i)) = delta K k0 k1 i j) ->
+  forall (psi psic : nat -> K) (w v : nat -> K),
+  sum K k0 kadd d (fun a => kmul (proj_ket K k0 kadd kmul d ev evc psi w a) (proj_bra K k0 kadd kmul d ev evc psic v a))
+  = sum K k0 kadd d (fun j => kmul (kmul (w j) (v j)) (prob_ket K k0 kadd kmul d ev evc psi psic j)).
+Proof. exact collapse_ket_norm. Qed.
+Print Assumptions C20_measure_collapse_ket_norm.
+
+Theorem C20_projector_groups_multiply :
+  forall (K : Type) (k0 k1 : K) (kadd kmul ksub : K -> K -> K) (kopp : K -> K),
+  ring_theory k0 k1 kadd kmul ksub kopp eq ->
+  forall (d : nat) (ev evc : nat -> nat -> K),
+  (forall i j, i < d -> j < d -> sum K k0 kadd d (fun a => kmul (evc a j) (ev a i)) = delta K k0 k1 i j) ->
+  forall (w v : nat -> K) (a b : nat),
+  sum K k0 kadd d (fun c => kmul (proj K k0 kadd kmul d ev evc w a c) (proj K k0 kadd kmul d ev evc v c b))
+  = proj K k0 kadd kmul d ev evc (fun j => kmul (w j) (v j)) a b.
+Proof. exact proj_mul. Qed.
+Print Assumptions C20_projector_groups_multiply.
+
 (* non-vacuity: the model computes; the Kraus hypothesis is satisfiable over Z *)
 Example C20_examples :
   pt_perm 3 [1] = [0; 4; 2; 3; 1; 5]
@@ -208,6 +300,10 @@ Example C20_examples :
   /\ logneg_subsys_route [2; 3; 2]%Z [0] [2] None = LExact [0; 2] [2; 2]%Z [0]
   /\ logneg_subsys_route [2; 3; 2]%Z [0] [5] None = LReject
   /\ mutinf_subsys_calls [2; 3; 2]%Z [2] [0] = Some [[2; 0]; [2]; [0]]
+  /\ group [-10; -7; 4; 14; 16; 20]%Z 16%Z 4%Z = [3; 4]
+  /\ group [-10; -7; 4; 14; 16; 20]%Z 16%Z 5%Z = [3; 4; 5]
+  /\ measure_model [-10; -7; 4; 14; 16; 20]%Z [1; 2; 3; 4; 5; 6]%Z 16%Z 5%Z = (16%Z, [3; 4; 5], 15%Z)
+  /\ annulus_sum [-10; -7; 4; 14; 16; 20]%Z [1; 2; 3; 4; 5; 6]%Z 16%Z 1%Z 5%Z = 10%Z
   /\ tr Z 0%Z Z.add 2 (kraus Z 0%Z Z.add Z.mul 2 2
         (fun k i a => if Nat.eqb k 0 then (if Nat.eqb i 0 then if Nat.eqb a 0 then 1 else 0 else 0)
                       else (if Nat.eqb i 1 then if Nat.eqb a 1 then 1 else 0 else 0))%Z
